@@ -2,7 +2,6 @@ package c06
 
 import (
 	"fmt"
-	"sort"
 	"strings"
 	"testing"
 	"time"
@@ -221,7 +220,6 @@ func runSequential(t vkit.TB, c Case) {
 	if hadExpiredAttempt {
 		class += "+expired-attempt"
 	}
-	sort.Strings(nil)
 	vkit.Case(class, nontrivial, fmt.Sprintf("%d|%s", c.MaxMap, strings.Join(tags, " ")))
 	vkit.Sample(class, map[string]any{"steps": tags, "max_mappings": c.MaxMap})
 }
